@@ -627,7 +627,7 @@ def frag13 : Ast.Stmt → Bool
   | .query q _ => Flat.flatSelect q
   | .ctas _ _ _ q _ => Flat.flatSelect q
   | .createView _ _ _ q => Flat.flatSelect q
-  | .insert .. => false
+  | .insert .. | .update .. | .merge .. => false
   | _ => true
 
 /-- the select extractor on a flat block, for two providers: same outcome up to a frame -/
@@ -759,8 +759,8 @@ theorem tables_independent_of_provider_partial (env : Env) (p : ProvView) (silen
                  (fun cs => cs.map listColumn) (some cs)))
     | createTable tgt ine cols => exact TablesAgree.refl _
     | createTableLike tgt src => exact TablesAgree.refl _
-    | update _ _ _ _ _ => exact TablesAgree.refl _
-    | merge _ _ _ _ _ _ => exact TablesAgree.refl _
+    | update _ _ _ _ _ => simp [frag13] at hs
+    | merge _ _ _ _ _ _ => simp [frag13] at hs
     | copy _ _ => exact TablesAgree.refl _
     | drop v ie tgt => exact TablesAgree.refl _
     | alterRename x y => exact TablesAgree.refl _
